@@ -46,7 +46,9 @@ class TemplateExecutor(Executor):
             c = self.p.cell(v)
             if isinstance(c, ListCell):
                 if c.items is not None:
-                    return lift(lift([self.to_val(x) for x in c.items], SEQ(VAL)) if c.items else SV(z3.Empty(SEQ(VAL).sort()), SEQ(VAL)), VAL)
+                    seq = lift([self.to_val(x) for x in c.items], SEQ(VAL)) if c.items else SV(z3.Empty(SEQ(VAL).sort()), SEQ(VAL))
+                    self.p.assume(VUNLIST(VLIST(seq.z)) == seq.z)  # a list value enumerates its items
+                    return lift(seq, VAL)
                 if c.sv.ty == SEQ(VAL):
                     self.p.assume(VUNLIST(VLIST(c.sv.z)) == c.sv.z)  # a list value enumerates its items
                     return lift(c.sv, VAL)
@@ -124,8 +126,14 @@ class TemplateExecutor(Executor):
     def to_sv(self, v, ty=None):
         if isinstance(v, (OpaqueValue, OpaqueFn, Closure, StarArgs)) or v is None or isinstance(v, type):
             return self.to_val(v)
+        if ty is not None and ty.kind == "val" and isinstance(v, Ref) and isinstance(self.p.cell(v), ListCell):
+            return self.to_val(v)  # boxing a list as a value (with the axiom that it enumerates its items)
         if isinstance(v, SV) and v.ty.kind == "val" and ty is not None and ty.kind == "seq" and ty.elem.kind == "val":
             return SV(VUNLIST(v.z), ty)
+        if isinstance(v, Ref) and isinstance(self.p.cell(v), ListCell) and self.p.cell(v).items is not None and (ty is None or (ty.kind == "seq" and ty.elem.kind == "val")):
+            items = self.p.cell(v).items
+            if items and any(isinstance(x, (OpaqueValue, OpaqueFn, Closure, type)) or x is None for x in items):
+                return lift([self.to_val(x) for x in items], SEQ(VAL))
         return super().to_sv(v, ty)
 
     def slice(self, base, lo, hi, st, node=None):
@@ -232,6 +240,18 @@ class TemplateExecutor(Executor):
         if va or vb:
             return self.opaque_call("op_" + type(op).__name__, [a, b], {})
         return super().binop(op, a, b, node)
+
+    def e_BoolOp(self, n, fr):
+        if self.spec_mode:
+            # `a and b` / `a or b` on opaque values return an operand, also inside a clause
+            vals = [self.eval(e, fr) for e in n.values]
+            if all(isinstance(v, SV) and v.ty.kind == "val" for v in vals):
+                out = vals[-1]
+                for v in reversed(vals[:-1]):
+                    t = self.truth(v)
+                    out = SV(z3.If(t, out.z, v.z), VAL) if isinstance(n.op, ast.And) else SV(z3.If(t, v.z, out.z), VAL)
+                return out
+        return super().e_BoolOp(n, fr)
 
     def e_UnaryOp(self, n, fr):
         if isinstance(n.op, ast.USub):
